@@ -55,7 +55,12 @@ type C20Case struct {
 	Ops        []C20Op  `json:"ops"`
 }
 
+// drawsForever is what scriptedRand panics with when a generator draws more ports for one call
+// than MaxRetries allows: it would go on for ever instead of failing.
+const drawsForever = "the generator drew more random ports for one call than MaxRetries allows"
+
 type scriptedRand struct {
+	limit int // > 0: the call count at which Intn gives up (set per operation)
 	vals  []uint32
 	i     int
 	bad   string
@@ -66,6 +71,9 @@ type scriptedRand struct {
 
 func (r *scriptedRand) Intn(n int) int {
 	r.calls++
+	if r.limit > 0 && r.calls > r.limit {
+		panic(drawsForever)
+	}
 	r.lastN = n
 	if n <= 0 {
 		if r.bad == "" {
@@ -107,6 +115,10 @@ type liveRes struct {
 func runC20(c *C20Case) (kind, msg string) { //nolint:cyclop,gocyclo,maintidx
 	var k, m string
 	if p := catch(func() { k, m = runC20Inner(c) }); p != nil {
+		if fmt.Sprint(p) == drawsForever {
+			return "never-gives-up", "a call that cannot bind any port does not fail: " + drawsForever + " (it would never return)"
+		}
+
 		return "panic", fmt.Sprintf("panic: %v", p)
 	}
 
@@ -191,6 +203,14 @@ func runC20Inner(c *C20Case) (string, string) { //nolint:cyclop,gocyclo,maintidx
 		socksBefore, lisBefore := len(n.Socks()), len(n.Listeners())
 		attempts = attempts[:0]
 		callsBefore := rnd.calls
+		retries := c.MaxRetries
+		if retries <= 0 {
+			retries = 10 // Validate's default
+		}
+		rnd.limit = rnd.calls + retries + 8
+		if op.Kind == "evenport" {
+			rnd.limit = rnd.calls + 128*retries + 8 // GetRandomEvenPort probes up to 128 times
+		}
 		if op.Kind == "evenport" {
 			// the allocation manager's use of the generator for EVEN-PORT requests: the port it
 			// picks is what the server then requests (and reserves port+1 next to it)
